@@ -1,1 +1,455 @@
-//! Deterministic scheduler (filled in with the concurrency harnesses).
+//! Deterministic scheduler for the concurrency harnesses.
+//!
+//! Tasks are real OS threads, but exactly one of them runs between two *scheduling points*; everything a task does
+//! between two points is one atomic step as far as the other tasks can tell, so the event log is totally ordered and
+//! sequentially consistent.  Code under test reaches a scheduling point through the `folo_verif` hooks (shim atomics,
+//! named yield points, shim mutexes), which call [`point`], [`spin`] or [`block_until`].  Threads that are not tasks of
+//! an executor (the harness main thread, threads spawned by the code under test that the harness does not own) pass
+//! through all of these as no-ops.
+//!
+//! Strategies: `Script` follows a TLC behaviour (sequence of task indexes, optionally with the operation each step is
+//! expected to perform; a mismatch is *drift*: it is counted, and the run continues under the seeded random strategy),
+//! `Random` (seeded), `Pct` (seeded priorities with a few change points).
+//!
+//! Deadlock is detected structurally: no task is runnable and not all are finished.  The executor then returns
+//! `Outcome::Deadlock` and leaves the stuck threads parked (they are leaked; run such stimuli in a child process if the
+//! leaked state matters).
+use std::cell::RefCell;
+use std::sync::{Arc, Condvar, Mutex};
+use std::thread;
+use std::time::{Duration, Instant};
+
+use crate::{json, Rng, Value};
+
+#[derive(Clone, Debug, PartialEq, Eq)]
+pub enum Status {
+    /// Parked at a scheduling point (or not started), may be chosen.
+    Runnable,
+    /// In a spin loop: only eligible again after another task has taken a step.
+    Spinning,
+    /// Waiting for a condition that another task must establish (cooperative block); re-evaluated when chosen.
+    Blocked(String),
+    Finished,
+}
+
+#[derive(Clone, Debug)]
+pub struct Step {
+    pub task: usize,
+    /// Operation the task announced at the scheduling point it was resumed from ("start" for the first step).
+    pub op: String,
+}
+
+#[derive(Clone, Debug)]
+pub enum Strategy {
+    /// (task index, expected op prefix or "" for any)
+    Script(Vec<(usize, String)>),
+    Random,
+    Pct { changes: usize },
+}
+
+#[derive(Debug)]
+pub enum Outcome {
+    Completed,
+    /// (task, status) of every unfinished task
+    Deadlock(Vec<(usize, Status)>),
+    /// the step budget was exhausted (live-lock or runaway)
+    StepLimit,
+    /// wall-clock watchdog fired while a task was running (code under test blocked outside scheduler control)
+    Stuck(usize),
+}
+
+struct TaskInfo {
+    name: String,
+    status: Status,
+    pending_op: String,
+    panicked: Option<String>,
+    priority: u64,
+}
+
+struct State {
+    tasks: Vec<TaskInfo>,
+    /// task that currently holds the token (None while the executor decides or before start)
+    current: Option<usize>,
+    /// set by the executor when it gives up (deadlock / limits): parked tasks stay parked forever
+    abandoned: bool,
+    steps: Vec<Step>,
+    log: Vec<Value>,
+    since_spin: Vec<bool>, // since_spin[t]: some other task stepped since t began spinning
+    drift: usize,
+}
+
+struct Shared {
+    st: Mutex<State>,
+    cv: Condvar,
+}
+
+thread_local! {
+    static CURRENT: RefCell<Option<(Arc<Shared>, usize)>> = const { RefCell::new(None) };
+}
+
+/// True if the calling thread is a task of a running executor.
+pub fn in_task() -> bool {
+    CURRENT.with(|c| c.borrow().is_some())
+}
+
+/// Index of the calling task, if any.
+pub fn task_id() -> Option<usize> {
+    CURRENT.with(|c| c.borrow().as_ref().map(|(_, t)| *t))
+}
+
+fn with_current<R>(f: impl FnOnce(&Arc<Shared>, usize) -> R) -> Option<R> {
+    CURRENT.with(|c| c.borrow().as_ref().map(|(s, t)| f(s, *t)))
+}
+
+/// Scheduling point: the calling task is about to perform `op`.  Returns when the scheduler resumes the task.
+pub fn point(op: &str) {
+    with_current(|sh, me| yield_with(sh, me, Status::Runnable, op));
+}
+
+/// Scheduling point inside a spin loop: the task will not be resumed until some other task has taken a step.
+pub fn spin(op: &str) {
+    with_current(|sh, me| yield_with(sh, me, Status::Spinning, op));
+}
+
+/// Cooperative blocking: yields until `ready()` is true.  `ready` is evaluated while holding the token, so it may
+/// look at shared state of the code under test.  Outside a task it busy-waits with thread::yield_now.
+pub fn block_until(reason: &str, mut ready: impl FnMut() -> bool) {
+    if !in_task() {
+        while !ready() {
+            thread::yield_now();
+        }
+        return;
+    }
+    loop {
+        if ready() {
+            return;
+        }
+        with_current(|sh, me| yield_with(sh, me, Status::Blocked(reason.to_string()), reason));
+    }
+}
+
+/// Appends a record to the executor's totally ordered log (adds "task" and "seq").  Outside a task: ignored.
+pub fn emit(mut v: Value) {
+    with_current(|sh, me| {
+        let mut st = sh.st.lock().unwrap_or_else(|e| e.into_inner());
+        if let Some(o) = v.as_object_mut() {
+            o.insert("task".into(), json!(me));
+            o.insert("seq".into(), json!(st.log.len() + 1));
+        }
+        st.log.push(v);
+    });
+}
+
+fn yield_with(sh: &Arc<Shared>, me: usize, status: Status, op: &str) {
+    let mut st = sh.st.lock().unwrap_or_else(|e| e.into_inner());
+    st.tasks[me].status = status.clone();
+    st.tasks[me].pending_op = op.to_string();
+    if status != Status::Runnable {
+        st.since_spin[me] = false;
+    }
+    st.current = None;
+    sh.cv.notify_all();
+    // park until chosen again
+    loop {
+        if st.current == Some(me) {
+            st.tasks[me].status = Status::Runnable;
+            return;
+        }
+        st = sh.cv.wait(st).unwrap_or_else(|e| e.into_inner());
+    }
+}
+
+pub struct Exec {
+    shared: Arc<Shared>,
+    handles: Vec<thread::JoinHandle<()>>,
+    strategy: Strategy,
+    rng: Rng,
+    pub max_steps: usize,
+    /// how long a single step may run before the executor declares the task stuck outside scheduler control
+    pub step_timeout: Duration,
+}
+
+pub struct Report {
+    pub outcome: Outcome,
+    pub steps: Vec<Step>,
+    pub log: Vec<Value>,
+    pub drift: usize,
+    /// panic message per task (None = returned normally or never finished)
+    pub panics: Vec<Option<String>>,
+    pub names: Vec<String>,
+}
+
+impl Exec {
+    pub fn new(strategy: Strategy, seed: u64) -> Self {
+        Self {
+            shared: Arc::new(Shared {
+                st: Mutex::new(State { tasks: vec![], current: None, abandoned: false, steps: vec![], log: vec![], since_spin: vec![], drift: 0 }),
+                cv: Condvar::new(),
+            }),
+            handles: vec![],
+            strategy,
+            rng: Rng::new(seed),
+            max_steps: 200_000,
+            step_timeout: Duration::from_secs(20),
+        }
+    }
+
+    /// Registers a task; it starts parked and runs only when scheduled.  A panic inside `f` is captured (data).
+    pub fn spawn(&mut self, name: &str, f: impl FnOnce() + Send + 'static) -> usize {
+        let id;
+        {
+            let mut st = self.shared.st.lock().unwrap();
+            id = st.tasks.len();
+            let pr = self.rng.next();
+            st.tasks.push(TaskInfo { name: name.to_string(), status: Status::Runnable, pending_op: "start".into(), panicked: None, priority: pr });
+            st.since_spin.push(true);
+        }
+        let sh = Arc::clone(&self.shared);
+        let h = thread::Builder::new()
+            .name(format!("task-{name}"))
+            .spawn(move || {
+                CURRENT.with(|c| *c.borrow_mut() = Some((Arc::clone(&sh), id)));
+                // wait for the first grant
+                {
+                    let mut st = sh.st.lock().unwrap_or_else(|e| e.into_inner());
+                    while st.current != Some(id) {
+                        st = sh.cv.wait(st).unwrap_or_else(|e| e.into_inner());
+                    }
+                }
+                let r = crate::catch(f);
+                let mut st = sh.st.lock().unwrap_or_else(|e| e.into_inner());
+                st.tasks[id].status = Status::Finished;
+                st.tasks[id].pending_op = "finished".into();
+                if let Err(m) = r {
+                    st.tasks[id].panicked = Some(m);
+                }
+                st.current = None;
+                sh.cv.notify_all();
+                CURRENT.with(|c| *c.borrow_mut() = None);
+            })
+            .expect("spawn task thread");
+        self.handles.push(h);
+        id
+    }
+
+    fn eligible(st: &State) -> Vec<usize> {
+        st.tasks
+            .iter()
+            .enumerate()
+            .filter(|(i, t)| match t.status {
+                Status::Runnable => true,
+                // a blocked task may be resumed to re-evaluate its condition, but only after someone else moved
+                Status::Spinning | Status::Blocked(_) => st.since_spin[*i],
+                Status::Finished => false,
+            })
+            .map(|(i, _)| i)
+            .collect()
+    }
+
+    pub fn run(mut self) -> Report {
+        let sh = Arc::clone(&self.shared);
+        let mut script_pos = 0usize;
+        let mut scripted = matches!(self.strategy, Strategy::Script(_));
+        let mut pct_changes: Vec<usize> = vec![];
+        if let Strategy::Pct { changes } = self.strategy {
+            for _ in 0..changes {
+                pct_changes.push(self.rng.below(400) as usize);
+            }
+        }
+        let outcome;
+        let mut nsteps = 0usize;
+        loop {
+            let mut st = sh.st.lock().unwrap_or_else(|e| e.into_inner());
+            // wait until the token is free (the running task reached its next point or finished)
+            let t0 = Instant::now();
+            let mut stuck = None;
+            while let Some(cur) = st.current {
+                let (g, to) = sh.cv.wait_timeout(st, Duration::from_millis(200)).unwrap_or_else(|e| e.into_inner());
+                st = g;
+                if to.timed_out() && t0.elapsed() > self.step_timeout && st.current == Some(cur) {
+                    stuck = Some(cur);
+                    break;
+                }
+            }
+            if let Some(cur) = stuck {
+                st.abandoned = true;
+                outcome = Outcome::Stuck(cur);
+                break;
+            }
+            if st.tasks.iter().all(|t| t.status == Status::Finished) {
+                outcome = Outcome::Completed;
+                break;
+            }
+            let el = Self::eligible(&st);
+            if el.is_empty() {
+                st.abandoned = true;
+                outcome = Outcome::Deadlock(
+                    st.tasks.iter().enumerate().filter(|(_, t)| t.status != Status::Finished).map(|(i, t)| (i, t.status.clone())).collect(),
+                );
+                break;
+            }
+            if nsteps >= self.max_steps {
+                st.abandoned = true;
+                outcome = Outcome::StepLimit;
+                break;
+            }
+            // choose
+            let mut choice = None;
+            if scripted {
+                if let Strategy::Script(sc) = &self.strategy {
+                    if script_pos < sc.len() {
+                        let (t, exp) = &sc[script_pos];
+                        let ok = el.contains(t) && (exp.is_empty() || st.tasks[*t].pending_op.starts_with(exp.as_str()));
+                        if ok {
+                            choice = Some(*t);
+                            script_pos += 1;
+                        } else {
+                            st.drift += 1;
+                            let pend = st.tasks.get(*t).map(|x| x.pending_op.clone()).unwrap_or_default();
+                            st.log.push(json!({"ev":"drift","at":script_pos,"want_task":t,"want_op":exp,"pending":pend}));
+                            scripted = false;
+                        }
+                    } else {
+                        scripted = false;
+                    }
+                }
+            }
+            let t = match choice {
+                Some(t) => t,
+                None => match self.strategy {
+                    Strategy::Pct { .. } => {
+                        if pct_changes.contains(&nsteps) {
+                            // demote the currently highest-priority eligible task
+                            if let Some(&hi) = el.iter().max_by_key(|i| st.tasks[**i].priority) {
+                                st.tasks[hi].priority = self.rng.below(1000);
+                            }
+                        }
+                        *el.iter().max_by_key(|i| st.tasks[**i].priority).unwrap()
+                    }
+                    _ => el[self.rng.below(el.len() as u64) as usize],
+                },
+            };
+            let op = st.tasks[t].pending_op.clone();
+            st.steps.push(Step { task: t, op });
+            // Progress = resuming a task that was parked at a real operation.  Resuming a waiting task only lets it
+            // re-evaluate its condition; if that were progress, two tasks blocked on each other would ping-pong forever
+            // instead of being reported as a deadlock.
+            if st.tasks[t].status == Status::Runnable {
+                for (i, f) in st.since_spin.iter_mut().enumerate() {
+                    if i != t {
+                        *f = true;
+                    }
+                }
+            }
+            st.current = Some(t);
+            nsteps += 1;
+            drop(st);
+            sh.cv.notify_all();
+        }
+        let completed = matches!(outcome, Outcome::Completed);
+        if completed {
+            for h in self.handles.drain(..) {
+                let _ = h.join();
+            }
+        }
+        // otherwise: stuck threads are leaked on purpose
+        let st = sh.st.lock().unwrap_or_else(|e| e.into_inner());
+        Report {
+            outcome,
+            steps: st.steps.clone(),
+            log: st.log.clone(),
+            drift: st.drift,
+            panics: st.tasks.iter().map(|t| t.panicked.clone()).collect(),
+            names: st.tasks.iter().map(|t| t.name.clone()).collect(),
+        }
+    }
+}
+
+/// A mutex whose lock acquisition is a scheduling point and whose contention is visible to the scheduler
+/// (a task that cannot take it is `Blocked`, so a self-deadlock is a structural deadlock, not a hang).
+/// Poisoning follows std: a panic while the guard is held poisons it.
+pub struct SchedMutex<T> {
+    inner: std::sync::Mutex<T>,
+}
+
+impl<T> SchedMutex<T> {
+    pub const fn new(v: T) -> Self {
+        Self { inner: std::sync::Mutex::new(v) }
+    }
+
+    pub fn lock(&self) -> std::sync::LockResult<std::sync::MutexGuard<'_, T>> {
+        if !in_task() {
+            return self.inner.lock();
+        }
+        point("mutex.lock");
+        loop {
+            match self.inner.try_lock() {
+                Ok(g) => return Ok(g),
+                Err(std::sync::TryLockError::Poisoned(p)) => return Err(p),
+                Err(std::sync::TryLockError::WouldBlock) => {
+                    with_current(|sh, me| yield_with(sh, me, Status::Blocked("mutex".into()), "mutex.lock(contended)"));
+                }
+            }
+        }
+    }
+}
+
+#[cfg(test)]
+mod tests {
+    use super::*;
+    use std::sync::atomic::{AtomicUsize, Ordering};
+
+    #[test]
+    fn script_is_followed_and_log_is_ordered() {
+        let mut ex = Exec::new(Strategy::Script(vec![(0, String::new()), (1, String::new()), (1, "b".into()), (0, "a".into())]), 1);
+        ex.spawn("a", || {
+            point("a1");
+            emit(json!({"ev":"a"}));
+        });
+        ex.spawn("b", || {
+            point("b1");
+            emit(json!({"ev":"b"}));
+        });
+        let r = ex.run();
+        assert!(matches!(r.outcome, Outcome::Completed));
+        assert_eq!(r.drift, 0);
+        let evs: Vec<&str> = r.log.iter().map(|v| v["ev"].as_str().unwrap()).collect();
+        assert_eq!(evs, vec!["b", "a"]);
+    }
+
+    #[test]
+    fn mutual_block_is_a_deadlock() {
+        let flag = Arc::new(AtomicUsize::new(0));
+        let mut ex = Exec::new(Strategy::Random, 7);
+        for _ in 0..2 {
+            let f = Arc::clone(&flag);
+            ex.spawn("w", move || {
+                point("x");
+                block_until("never", || f.load(Ordering::SeqCst) == 1);
+            });
+        }
+        let r = ex.run();
+        assert!(matches!(r.outcome, Outcome::Deadlock(_)), "{:?}", r.outcome);
+    }
+
+    #[test]
+    fn spinner_waits_for_the_other_task() {
+        let flag = Arc::new(AtomicUsize::new(0));
+        let mut ex = Exec::new(Strategy::Random, 3);
+        let f = Arc::clone(&flag);
+        ex.spawn("spinner", move || {
+            while f.load(Ordering::SeqCst) == 0 {
+                spin("spin");
+            }
+        });
+        let f = Arc::clone(&flag);
+        ex.spawn("setter", move || {
+            point("p1");
+            point("p2");
+            f.store(1, Ordering::SeqCst);
+        });
+        let r = ex.run();
+        assert!(matches!(r.outcome, Outcome::Completed));
+        assert!(r.steps.len() < 20);
+    }
+}
